@@ -614,8 +614,10 @@ def tls_retry_check(ch: Any, rule: str) -> int:
     prog = ch.prog
     n = 0
     for fn in prog.all_functions('proxy'):
-        if fn.cls is None or fn.module.name not in ('proxy.http.handler', 'proxy.http.proxy.server', 'proxy.core.base.tcp_upstream'):
+        if fn.cls is None or fn.module.name not in ('proxy.http.handler', 'proxy.http.proxy.server', 'proxy.core.base.tcp_upstream', 'proxy.core.base.tcp_server'):
             continue
+        # a base class whose overriding caller does the retry may let SSLWantReadError pass (no handler able to catch it), but must not catch it as an error itself
+        may_propagate = fn.module.name == 'proxy.core.base.tcp_server'
         exc = ExcTypes(prog, fn.module)
         for t in walk_no_nested(fn.node):
             if not isinstance(t, ast.Try):
@@ -631,7 +633,9 @@ def tls_retry_check(ch: Any, rule: str) -> int:
                     first = h
                     break
             problem = None
-            if first is None:
+            if first is None and may_propagate:
+                pass
+            elif first is None:
                 problem = 'no handler catches ssl.SSLWantReadError around %s' % norm(reads[0])[:50]
             else:
                 types = exc.handler_types(first)
@@ -643,7 +647,7 @@ def tls_retry_check(ch: Any, rule: str) -> int:
                     last = first.body[-1] if first.body else None
                     if not (isinstance(last, ast.Return) and last.value is not None and norm(last.value) == 'False'):
                         problem = 'the SSLWantReadError handler does not end in `return False`'
-            ch.check(problem is None, rule, fn, 'retry on SSLWantReadError around %s' % norm(reads[0])[:40], 'incomplete TLS record => return False (retry when readable again)',
+            ch.check(problem is None, rule, fn, 'retry on SSLWantReadError around %s' % norm(reads[0])[:40], 'incomplete TLS record => return False (retry when readable again)' if first is not None else 'SSLWantReadError passes to the overriding caller, which retries',
                      '%s: a TLS record that arrives in two TCP segments makes recv() raise SSLWantReadError, and the connection is torn down instead of being read again when the rest arrives'
                      % (problem or ''), line=t.lineno)
     return n
@@ -979,3 +983,61 @@ def bound_args(prog: Program, caller: FuncInfo, call: ast.Call) -> Optional[Dict
     for k in call.keywords:
         out[k.arg] = k.value        # type: ignore[index]
     return out
+
+
+def lock_release_check(ch: Any, rule: str) -> int:
+    """A lock taken with a bare `<x>.acquire()` (no arguments: it blocks) is given back on EVERY way out of the function, exceptional ones included
+    (try/finally, or `with`).  Locks here are class-level and not re-entrant: one path that leaves with the lock held -- an assertion, an OSError from a
+    subprocess -- makes the next connection that needs it block for ever inside the worker's only thread.  -> number of acquire sites"""
+    prog = ch.prog
+    n = 0
+    for fn in prog.all_functions('proxy'):
+        if fn.module.name.startswith(('proxy.testing', 'proxy.common.backports')):
+            continue
+        acqs = [c_ for c_ in walk_no_nested(fn.node) if isinstance(c_, ast.Call) and isinstance(c_.func, ast.Attribute) and c_.func.attr == 'acquire' and not c_.args and not c_.keywords
+                and (attr_chain(c_.func.value) or '').split('.')[-1] in ('lock', '_lock', 'mutex') ]
+        if not acqs:
+            continue
+        g = cfg_of(fn, prog, unguarded_exc=True)
+        for a_ in acqs:
+            n += 1
+            lock = norm(a_.func.value)         # type: ignore[attr-defined]
+            bad = None
+            npaths = 0
+            for p in g.paths(limit=50000):
+                ex = p.executed()
+                at = [i for i, nd, lab in ex if nd.ast is not None and nd.kind in ('stmt', 'test') and lab != 'exc' and any(x is a_ for x in walk_no_nested(nd.ast))]
+                if not at:
+                    continue
+                npaths += 1
+                released = any(i > at[0] and nd.ast is not None and nd.kind in ('stmt', 'test') and any(isinstance(x, ast.Call) and isinstance(x.func, ast.Attribute) and x.func.attr == 'release' and
+                               norm(x.func.value) == lock for x in walk_no_nested(nd.ast)) for i, nd, lab in ex)
+                if not released and bad is None:
+                    raiser = [norm(g.nodes[nid].ast)[:50] for nid, lab in p.steps if lab == 'exc' and g.nodes[nid].ast is not None]
+                    bad = ('%s is taken with a bare acquire() and not given back on a way out of %s (%s): the lock is shared by every connection of the process and is not re-entrant, so the next '
+                           'connection that needs it blocks inside the worker\'s only thread and nothing is served any more' % (lock, fn.qualname, 'exception in `%s`' % raiser[0] if raiser else 'normal return'), p.describe(16))
+            ch.check(bad is None and npaths > 0, rule, fn, a_, 'released on all %d way(s) out, exceptional ones included' % npaths, bad[0] if bad else 'acquire never reached', witness=bad[1] if bad else None)
+    if n == 0:
+        ch.ok(rule, None, 'bare acquire()', 'no lock is taken with a bare acquire(): every lock is held through `with` (or a non-blocking acquire whose result is tested)', module_rel='proxy/')
+    return n
+
+
+def no_buffer_release_check(ch: Any, rule: str) -> int:
+    """Queued output is shared, not owned: the canned replies are module-level memoryviews queued as they are, on every connection.  Nothing in the
+    connection classes releases (memoryview.release()) what sits in a buffer -- a released view is dead for every other connection that queues it.
+    Expected 0 sites."""
+    prog = ch.prog
+    n = 0
+    root = prog.class_named('TcpConnection')
+    for ci in [root] + prog.subclasses(root):
+        for nm, fn in list(ci.methods.items()) + list(ci.inlined_methods.items()):
+            for c_ in ast.walk(fn.node):
+                if isinstance(c_, ast.Call) and isinstance(c_.func, ast.Attribute) and c_.func.attr == 'release' and not c_.args and not c_.keywords:
+                    n += 1
+                    ch.bad(rule, fn, c_, '%s releases a queued memoryview (%s): the canned replies (407, 400, tunnel established, ...) are module-level views queued as they are; once one of them is released '
+                           'because some connection was torn down with it still pending, every later connection that queues the same reply gets ValueError from flush() and is closed without an answer' % (fn.qualname, norm(c_)[:40]))
+    probe = ast.parse('mv.release()', mode='eval').body
+    assert isinstance(probe, ast.Call) and probe.func.attr == 'release' and not probe.args       # type: ignore[attr-defined]
+    if n == 0:
+        ch.ok(rule, None, 'memoryview.release() on queued data', 'no connection class releases queued views (matcher verified on a built-in example)', module_rel='proxy/core/connection/')
+    return n
